@@ -9,7 +9,14 @@ unset GOTOOLCHAIN 2>/dev/null || true
 mkdir -p .work evidence evidence/replay
 prop="${1:?property id}"
 bin=".work/check-$prop"
-if ! go build -o "$bin" ./cmd/check 2> ".work/build-$prop.log"; then
+modflag=""
+if [ -n "${VERIF_REPO:-}" ]; then
+  # development aid (seeded-change matrix): build against another checkout instead of /repo; never used by registered commands
+  tag=$(echo "$VERIF_REPO" | tr -c 'A-Za-z0-9' '_')
+  sed "s#=> /repo#=> $VERIF_REPO#" go.mod > ".work/go-$tag.mod"; cp go.sum ".work/go-$tag.sum" 2>/dev/null || touch ".work/go-$tag.sum"
+  modflag="-modfile=.work/go-$tag.mod"; bin=".work/check-$prop-$tag"
+fi
+if ! go build $modflag -o "$bin" ./cmd/check 2> ".work/build-$prop.log"; then
   cat ".work/build-$prop.log" >&2
   echo "BUILD-ERROR property=$prop (harness or /repo does not compile)" >&2
   exit 2
